@@ -3,15 +3,20 @@
 import json, glob, os, re
 ROOT = os.path.dirname(os.path.dirname(os.path.abspath(__file__)))
 rows = []
+ANN = json.load(open(os.path.join(ROOT, "seeded", "annotations.json")))
+def esc(t):
+    return t.replace("|", "\\|")
 for f in sorted(glob.glob(os.path.join(ROOT, "seeded", "*", "meta.json"))):
     m = json.load(open(f))
     name = os.path.basename(os.path.dirname(f))
-    what = m.get("summary", "")
-    needs = m.get("needs", "")
+    a = ANN.get(name, {})
+    what = esc(a.get("summary", m.get("summary", "")))
+    needs = esc(a.get("needs", m.get("needs", "")))
+    hist = esc(a.get("history", ""))
     res = []
     for c, r in m.get("checks_run_against_patch", {}).items():
         res.append(f"{c}: {'caught' if r['exit'] == 1 else ('not caught' if r['exit'] == 0 else 'exit ' + str(r['exit']))}")
-    rows.append(f"| {name} | {what} | {needs} | {'; '.join(res)} |")
+    rows.append(f"| {name} | {what} | {needs} | {'; '.join(res)}{' — ' + hist if hist else ''} |")
 table = "| id | change | needs to manifest | quick checks run against it |\n|---|---|---|---|\n" + "\n".join(rows) + "\n"
 p = os.path.join(ROOT, "DESIGN.md")
 s = open(p).read()
